@@ -8,13 +8,13 @@ d=$(mktemp -d /var/tmp/seedrepo.XXXXXX)
 trap 'rm -rf "$d"' EXIT
 rsync -a --exclude .git /repo/ "$d/"
 cp "$sd/demo_test.go" "$d/$pkg/zz_seed_demo_test.go"
-(cd "$d" && go test -vet=off -count=1 -run "$pat" ./$pkg/ >"$d/.demo_base.log" 2>&1) && echo "demo on unchanged tree: PASS" || echo "demo on unchanged tree: FAIL (unexpected)"
+(cd "$d" && go test -trimpath -vet=off -count=1 -run "$pat" ./$pkg/ >"$d/.demo_base.log" 2>&1) && echo "demo on unchanged tree: PASS" || echo "demo on unchanged tree: FAIL (unexpected)"
 (cd "$d" && git init -q . 2>/dev/null; patch -p1 -s < "$sd/patch.diff") || { echo "patch failed"; exit 2; }
 (cd "$d" && go build -trimpath ./... ) && echo "build with change: ok" || { echo "build with change: FAILED"; exit 3; }
 rm "$d/$pkg/zz_seed_demo_test.go"
-(cd "$d" && go test -vet=off -count=1 ./... >"$d/.suite.log" 2>&1) && echo "existing suite with change: PASS" || { echo "existing suite with change: FAIL"; grep -m5 "^--- FAIL\|^FAIL" "$d/.suite.log"; }
+(cd "$d" && go test -trimpath -vet=off -count=1 ./... >"$d/.suite.log" 2>&1) && echo "existing suite with change: PASS" || { echo "existing suite with change: FAIL"; grep -m5 "^--- FAIL\|^FAIL" "$d/.suite.log"; }
 cp "$sd/demo_test.go" "$d/$pkg/zz_seed_demo_test.go"
-(cd "$d" && go test -vet=off -count=1 -run "$pat" ./$pkg/ >"$d/.demo_seed.log" 2>&1) && echo "demo with change: PASS (unexpected)" || echo "demo with change: FAIL (as expected): $(grep -m1 -- '---\|panic\|_test.go' "$d/.demo_seed.log" | cut -c1-160)"
+(cd "$d" && go test -trimpath -vet=off -count=1 -run "$pat" ./$pkg/ >"$d/.demo_seed.log" 2>&1) && echo "demo with change: PASS (unexpected)" || echo "demo with change: FAIL (as expected): $(grep -m1 -- '---\|panic\|_test.go' "$d/.demo_seed.log" | cut -c1-160)"
 rm "$d/$pkg/zz_seed_demo_test.go"
 /verif/bin/govc check -repo "$d" -prop "$prop" -verif /verif -no-evidence -scratch "$d/.scratch" > "$d/.check.log" 2>&1
 echo "check exit=$? ; $(grep -c '^VIOLATION' "$d/.check.log") VIOLATION lines; first: $(grep -m2 '^VIOLATION' "$d/.check.log" | sed 's/replay=[^ ]* //' | tr '\n' ' ' | cut -c1-300)"
